@@ -8,6 +8,7 @@
 -/
 import FlacModel.Model.Decode
 import FlacModel.Gen.ShapesEnc
+import FlacModel.Gen.KernelsEnc
 
 namespace Flac
 open Gen
